@@ -37,6 +37,7 @@ def popBool (bs : Bytes) : Outcome (Bool × Bytes) :=
 def popRaw (size : Int) (bs : Bytes) : Outcome (Bytes × Bytes) :=
   if size < 0 then .err "rawSize"
   else if bs.length < size.toNat then .err "rawSize"
+  else if size = 0 then .ok ([], bs)   -- nothing to read: the reader is not asked (it would answer EOF at the end)
   else readN size.toNat bs
 
 /-- `PopMessage` -/
